@@ -3,7 +3,7 @@
 Exit codes: 0 held (known findings are printed, not alarms) / 1 VIOLATION / 2 UNDECIDED / 3 checker crash.
 `unknown`, time-outs and tracebacks are never mapped to a violation on their own: an undischarged
 obligation is a violation only if the solver produced a counter-model (`sat`) or the obligation is in
-obligations.lock.json (it was discharged on the unchanged tree) - in both cases a native witness search
+locks/<id>.lock.json (it was discharged on the unchanged tree) - in both cases a native witness search
 on the real code is run and the failing input, if found, is written to the replay file.
 """
 from __future__ import annotations
@@ -15,7 +15,7 @@ import sys
 import time
 
 VERIF = os.path.dirname(os.path.dirname(os.path.abspath(__file__)))
-LOCK = os.path.join(VERIF, "obligations.lock.json")
+LOCKDIR = os.path.join(VERIF, "locks")
 KNOWN = os.path.join(VERIF, "known_findings.json")
 
 SEMANTICS_ASSUMPTIONS = [
@@ -79,11 +79,12 @@ def run_property(prop, mod, tier="quick", seed=0, update_lock=False):
 
     pr = PropertyRun(prop, tier, seed)
     known = load_json(KNOWN, {"findings": [], "fixed": []})
-    lock = load_json(LOCK, {})
+    lockfile = os.path.join(LOCKDIR, f"{prop}.lock.json")
+    lock = {prop: load_json(lockfile, [])}
     thorough = tier == "thorough"
     units = mod.units(tier)
     reports, table, nuniq = run_units(units, timeout=30 if thorough else 10, retry=240 if thorough else 60,
-                                      want_both=thorough)
+                                      want_both=thorough, only_prop=prop)
     mine = {k: e for k, e in table.items() if prop in e["props"]}
     engine_errors = [f"{r['unit']}: {e}" for r in reports for e in r["errors"]]
     funcs = {}
@@ -97,8 +98,11 @@ def run_property(prop, mod, tier="quick", seed=0, update_lock=False):
 
     # ---- triage of undischarged obligations
     os.makedirs(os.path.join(VERIF, "replays"), exist_ok=True)
+    reported = set()
     for label, e in sorted(failed.items()):
         for fi in e["failed"]:
+            if label in reported:
+                continue
             kf = match_known(known, prop, label, fi["path"])
             if kf is not None:
                 pr.known_hits.append((kf, label, fi))
@@ -120,12 +124,14 @@ def run_property(prop, mod, tier="quick", seed=0, update_lock=False):
             with open(rp, "w") as f:
                 json.dump({
                     "property": prop, "obligation": label, "unit": fi["unit"], "path": fi["path"],
+                    "all_failing_paths": [x["path"] for x in e["failed"] if match_known(known, prop, label, x["path"]) is None][:20],
                     "solver_result": fi["result"], "solver_attempts": fi["attempts"],
                     "was_discharged_on_unchanged_tree": regression,
                     "witness": witness, "replay_cmd": f"./check {prop} --replay {rp}",
                     "smt2": fi["smt2"][:200000],
                 }, f, indent=1, default=str)
             pr.violations.append((label, rp, found))
+            reported.add(label)
     seen_kf = set()
     for kf, label, fi in pr.known_hits:
         key = kf.get("id", kf.get("what"))
@@ -163,14 +169,14 @@ def run_property(prop, mod, tier="quick", seed=0, update_lock=False):
     for label, res, path in pr.undecided:
         pr.say(f"UNDECIDED {label} solver={res} path={path[-3:]}")
     for m in missing:
-        pr.say(f"UNDECIDED {m} obligation-not-generated (present in obligations.lock.json)")
+        pr.say(f"UNDECIDED {m} obligation-not-generated (present in locks/<id>.lock.json)")
     for e in engine_errors:
         pr.say(f"UNDECIDED engine: {e}")
 
     if update_lock and not pr.violations:
-        lock[prop] = sorted(discharged)
-        with open(LOCK, "w") as f:
-            json.dump(lock, f, indent=0, sort_keys=True)
+        os.makedirs(LOCKDIR, exist_ok=True)
+        with open(lockfile, "w") as f:
+            json.dump(sorted(discharged), f, indent=0)
 
     # ---- evidence
     n_obl = len(mine)
